@@ -17,6 +17,25 @@ def rand_bound(rng, odd=False):
 def extend_history(ctx, sess, regs, n_ops, odd_bounds=False):
     """simplify_extras / simplify_python_versions / complexify_python_versions steps over earlier results"""
     steps = []
+    # fixed battery: markers whose python_full_version root is / is not a complemented node, against bounds below, inside and above all
+    # their cuts, with every kind of bound (the shapes random bounds reach only by luck)
+    for text in ("python_full_version == '3.8'", "python_full_version != '3.8'", "python_full_version >= '3.8' and python_full_version < '3.10'",
+                 "python_full_version == '3.8' or python_full_version == '3.9'", "python_full_version < '3.8'", "python_full_version >= '3.8'",
+                 "python_full_version == '3.8' and os_name == 'posix'", "extra == 'a' or python_full_version < '3.9'"):
+        base, _ = sess.parse(text)
+        if base is None:
+            continue
+        regs.append(base)
+        for lo, hi in (('U', ['E', S('3.11')]), ('U', ['I', S('3.11')]), (['I', S('3.0')], 'U'), (['E', S('3.0')], 'U'), (['I', S('3.0')], ['E', S('3.11')]),
+                       ('U', ['E', S('3.8')]), (['I', S('3.8')], 'U'), (['E', S('3.8')], ['I', S('3.9')]), (['I', S('3.9')], ['E', S('3.9')])):
+            for k in ('cplxpv', 'simppv'):
+                reg, r = sess.op(k, base, lo, hi)
+                ctx.count('op:' + k)
+                if reg is None:
+                    ctx.failure('%s panicked or failed: %s' % (k, dump(r)[:200]), {'op': k, 'operand': {'parse': text}, 'args': [pretty(lo), pretty(hi)], 'result': dump(r)[:500]}, cls=None)
+                    continue
+                regs.append(reg)
+                steps.append((k, (base, lo, hi), reg))
     for _ in range(n_ops):
         k = ctx.rng.choice(['simpx', 'simppv', 'cplxpv'])
         a = ctx.rng.choice(regs)
